@@ -234,7 +234,7 @@ Theorem C13_source_drain_bounds : forall len cap base s e,
 Proof. exact src_drain_bounds_ok. Qed.
 
 (* the statements around those expressions in insert / remove are the ones the model's steps stand for *)
-Theorem C13_source_frames : forallb snd src_frames_vec = true /\ List.length src_frames_vec = 20%nat.
+Theorem C13_source_frames : forallb snd src_frames_vec = true /\ List.length src_frames_vec = 27%nat.
 Proof. split; [exact src_frames_vec_ok | reflexivity]. Qed.
 
 Theorem C13_source_drain_checks : forall len cap base s e a b,
@@ -284,6 +284,23 @@ Theorem C13_source_drain_filter_drop : forall old_len del, del <= old_len ->
   = RustSem.Ret (VN (old_len - del)).
 Proof. exact src_vec_drain_filter_drop_ok. Qed.
 Print Assumptions C13_source_drain_filter_drop.
+
+(* Splice: where Drain::fill writes and how long the gap is; what Drain::move_tail reserves and moves *)
+Theorem C13_source_splice : forall base len tail_start tail_len extra it,
+  len <= tail_start -> base + tail_start + extra < W -> tail_start + tail_len < W ->
+  let en := vdrain base len tail_start tail_len in
+  call_fn src_fns en "vec_splice_fill_start" [it] = RustSem.Ret (VN len) /\
+  call_fn src_fns en "vec_splice_fill_end" [it] = RustSem.Ret (VN tail_start) /\
+  call_fn src_fns en "vec_splice_fill_at" [it] = RustSem.Ret (VN (base + len)) /\
+  call_fn src_fns en "vec_splice_fill_gap" [it] = RustSem.Ret (VN (tail_start - len)) /\
+  call_fn src_fns en "vec_splice_used_capacity" [VN extra] = RustSem.Ret (VN (tail_start + tail_len)) /\
+  call_fn src_fns en "vec_splice_reserve_extra" [VN extra] = RustSem.Ret (VN extra) /\
+  call_fn src_fns en "vec_splice_new_tail_start" [VN extra] = RustSem.Ret (VN (tail_start + extra)) /\
+  call_fn src_fns en "vec_splice_move_src" [VN extra] = RustSem.Ret (VN (base + tail_start)) /\
+  call_fn src_fns en "vec_splice_move_dst" [VN extra] = RustSem.Ret (VN (base + (tail_start + extra))) /\
+  call_fn src_fns en "vec_splice_move_len" [VN extra] = RustSem.Ret (VN tail_len).
+Proof. exact src_vec_splice_ok. Qed.
+Print Assumptions C13_source_splice.
 
 (* ---- into_iter and clone (VecIter.v) ---- *)
 From BV Require Import VecIter.
